@@ -44,7 +44,7 @@ type Work struct {
 	CtxMode int    `json:"ctx_mode,omitempty"` // 0 simulated cancellable context, 1 context.Background(), 2 vm.Execute (no context argument)
 }
 
-const nSites = 68
+const nSites = 90
 const nWraps = 7
 
 func siteSrc(k int, id string) string {
@@ -54,9 +54,9 @@ func siteSrc(k int, id string) string {
 	case 1:
 		return "x" + id + " = hid(h(" + id + ")) + 1"
 	case 2:
-		return "obj.M(" + id + ")"
+		return "objM(" + id + ")"
 	case 3:
-		return "obj.V(" + id + ")"
+		return "objV(" + id + ")"
 	case 4:
 		return "hv(" + id + ", 2, 3)"
 	case 5:
@@ -70,7 +70,7 @@ func siteSrc(k int, id string) string {
 	case 9:
 		return "go hv(" + id + ", 2)"
 	case 10:
-		return "go obj.M(" + id + ")"
+		return "go objM(" + id + ")"
 	case 11:
 		return "func w" + id + "(a, b...) { h(" + id + ") }\ngo w" + id + "(1, 2)"
 	case 12:
@@ -134,9 +134,9 @@ func siteSrc(k int, id string) string {
 	case 41:
 		return "hpe(" + id + ", 1.5)"
 	case 42:
-		return "nilobj.M(" + id + ")"
+		return "nilM(" + id + ")"
 	case 43:
-		return "go nilobj.M(" + id + ")"
+		return "go nilM(" + id + ")"
 	case 44:
 		return "hs(\"s" + id + "\")"
 	case 45:
@@ -154,11 +154,11 @@ func siteSrc(k int, id string) string {
 	case 51:
 		return "fs" + id + " = [h, hid]\ndefer fs" + id + "[0](" + id + ")"
 	case 52:
-		return "st.F(" + id + ")"
+		return "stF(" + id + ")"
 	case 53:
-		return "go st.F(" + id + ")"
+		return "go stF(" + id + ")"
 	case 54:
-		return "x" + id + " = st.N\nx" + id + "()"
+		return "x" + id + " = hf()\nx" + id + "()"
 	case 55:
 		return "for q" + id + " in [1, 2] { go func(k) { h(" + id + " + k) }(q" + id + ") }"
 	case 56:
@@ -172,7 +172,7 @@ func siteSrc(k int, id string) string {
 	case 60:
 		return "x" + id + " = 1\nhz(&x" + id + ")"
 	case 61:
-		return "x" + id + " = 1\nobj.Z(&x" + id + ")"
+		return "x" + id + " = 1\nobjZ(&x" + id + ")"
 	case 62:
 		return "x" + id + " = 1\nfs" + id + " = [hz]\nfs" + id + "[0](&x" + id + ")"
 	case 63:
@@ -183,8 +183,53 @@ func siteSrc(k int, id string) string {
 		return "a" + id + " = make(chan int64, 1)\nb" + id + " = make(chan int64, 1)\na" + id + " <- 1\nclose(b" + id + ")\nb" + id + " <- a" + id
 	case 66:
 		return "x" + id + " = 1\nhptr(&x" + id + ")\nh(x" + id + ")"
-	default:
+	case 67:
 		return "a" + id + " = make(chan int64, 1)\nb" + id + " = make(chan int64, 1)\na" + id + " <- 1\nclose(b" + id + ")\ngo func() { b" + id + " <- a" + id + " }()"
+	// values a host function handed back, used afterwards (outside the call's own recover)
+	case 68:
+		return "l" + id + " = make([]*int64, 1)\nx" + id + " = *l" + id + "[0]"
+	case 69:
+		return "s" + id + " = make(struct { P *int64 })\nx" + id + " = *s" + id + ".P"
+	case 70:
+		return "l" + id + " = make([]*int64, 1)\n*l" + id + "[0] = h(" + id + ")"
+	case 71:
+		return "x" + id + " = h(" + id + ")\n*x" + id + " = 2"
+	case 72:
+		return "m" + id + " = hnm()\nm" + id + "[\"k\"] = h(" + id + ")"
+	case 73:
+		return "m" + id + " = hnm()\nx" + id + " = m" + id + "[\"k\"]\ndelete(m" + id + ", \"k\")\nx" + id + " = len(m" + id + ")\nfor k" + id + ", v" + id + " in m" + id + " { h(" + id + ") }"
+	case 74:
+		return "l" + id + " = hnsp()\nfor v" + id + " in l" + id + " { h(" + id + ") }"
+	case 75:
+		return "l" + id + " = hnsp()\nx" + id + " = len(l" + id + ")\ny" + id + " = l" + id + "[0]"
+	case 76:
+		return "a" + id + " = make(*int64)\n*a" + id + " = \"s\"\n*a" + id + " = hid(nil)"
+	case 77:
+		return "c" + id + " = hnc()\nclose(c" + id + ")"
+	case 78:
+		return "c" + id + " = hnc()\ngo func() { c" + id + " <- 1 }()\ngo func() { <-c" + id + " }()"
+	case 79:
+		return "u" + id + " = make(struct { A int64 })\nu" + id + ".B = h(" + id + ")"
+	case 80:
+		return "u" + id + " = make(struct { A int64 })\nx" + id + " = u" + id + ".B"
+	case 81:
+		return "v" + id + " = huncmp()\nx" + id + " = v" + id + " == v" + id + "\ny" + id + " = {v" + id + ": 1}"
+	case 82:
+		return "v" + id + " = huncmp()\nm" + id + " = {}\nm" + id + "[v" + id + "] = 1\nx" + id + " = v" + id + " in [v" + id + "]"
+	case 83:
+		return "i" + id + " = hid(nil)\ni" + id + ".M(" + id + ")"
+	case 84:
+		return "i" + id + " = hid(nil)\nx" + id + " = i" + id + " == nil\ny" + id + " = i" + id + " ?? h(" + id + ")"
+	case 85:
+		return "ro" + id + " = hid(make(chan int64, 1))\nro" + id + " <- h(" + id + ")"
+	case 86:
+		return "ro" + id + " = hid(make(chan int64))\nclose(ro" + id + ")\nclose(ro" + id + ")"
+	case 87:
+		return "d" + id + " = hid(1.5)\nx" + id + " = d" + id + " * 2 + 1\ny" + id + " = d" + id + " / 0\nz" + id + " = -d" + id + "\nw" + id + " = 7 % hid(0)"
+	case 88:
+		return "q" + id + " = hf()\ngo q" + id + "()\ndefer q" + id + "()"
+	default:
+		return "pp" + id + " = new(*int64)\nx" + id + " = **pp" + id + "\n**pp" + id + " = h(" + id + ")"
 	}
 }
 
@@ -253,6 +298,17 @@ func (Prop) Gen(seed int64, tier string) *harness.Case {
 	return &harness.Case{Prop: "C01", Seed: seed, Tier: tier, Workload: wb, Events: evs,
 		Knobs: map[string]int{"sites": n, "density": density}, Choices: harness.GenChoices(r, 300, density), Source: Render(&w)}
 }
+
+// Unx has an unexported field; Celsius is a named numeric type.
+type Unx struct {
+	hidden int
+	Open   int
+}
+
+type Celsius float64
+
+// Iface is an interface with a method; a typed nil *T stored in it is non-nil as an interface.
+type Iface interface{ M(int64) int64 }
 
 // T is the Go struct bound into the environment.
 type T struct {
@@ -345,15 +401,23 @@ func (Prop) Run(t *testing.T, c *harness.Case, verbose bool) *harness.Result {
 		e.Define("hpf", func(format string, args ...interface{}) (int, error) { fault("hpf"); return len(args), nil })
 		e.Define("hs", func(s string) string { fault("hs"); return s })
 		e.Define("hnilv", func() interface{} { fault("hnilv"); return nil })
+		e.Define("hnm", func() map[string]int64 { fault("hnm"); return nil })
+		e.Define("hnsp", func() *[]int64 { fault("hnsp"); return nil })
+		e.Define("hnc", func() chan int64 { fault("hnc"); return nil })
+		e.Define("huncmp", func() interface{} { fault("huncmp"); return struct{ S []int }{[]int{1}} })
 		e.Define("hz", func() int64 { fault("hz"); return 0 })
 		e.Define("hptr", func(p *int64) { fault("hptr"); *p = 5 })
-		e.Define("nilobj", (*T)(nil))
 		e.Define("call", func(f func()) { fault("call"); f() })
 		e.Define("callr", func(f func(int64) int64) int64 { fault("callr"); return f(1) + 1 })
 		obj := &T{}
 		obj.hook = func(n string) interface{} { return fault(n) }
-		e.Define("obj", obj)
-		e.Define("st", &T{F: func(id int64) int64 { fault("st.F"); return id }})
+		// the property's environments bind values a script could construct itself, or Go functions over
+		// such values: the struct is not bound, its method values and its func-typed field are
+		e.Define("objM", obj.M)
+		e.Define("objV", obj.V)
+		e.Define("objZ", obj.Z)
+		e.Define("nilM", (*T)(nil).M)
+		e.Define("stF", (&T{F: func(id int64) int64 { fault("st.F"); return id }}).F)
 		sim.Events = append(sim.Events, &simrt.Event{AtQuiescence: true, Name: "cleanup-cancel", Do: func(s *simrt.Sim) { ctx.Cancel() }})
 		sim.Spawn("main", func() {
 			defer func() {
